@@ -315,11 +315,11 @@ def shape_of(n):
 # `mem`/`delay`, or as the time operand of `delay`.  The generated programs get `proj + 0.0` there.
 
 def _wrap(n):
-    return coregen.Node("bin", "add", n, coregen.Node("lit", "0.0")) if n.kind == "proj" else n
+    return coregen.Node("bin", "add", n, coregen.Node("lit", "0.0")) if n.kind in ("proj", "field") else n
 
 
 def _wrap_tail(n):
-    if n.kind in ("let", "lett", "set"):
+    if n.kind in ("let", "lett", "set", "letp", "letr", "setf", "letrp"):
         return coregen.Node(n.kind, *(list(n.a[:-1]) + [_wrap_tail(n.a[-1])]))
     if n.kind == "if":
         return n            # its arms are handled where the `if` node itself is visited
@@ -340,16 +340,17 @@ def steer_node(n):
 
 def in_known_class(n):
     """the class predicate of D1..D4 on a generated AST node (what `steer_node` removes)"""
-    if n.kind == "mem" and n.a[0].kind == "proj":
+    PJ = ("proj", "field")       # a record field access is a projection too
+    if n.kind == "mem" and n.a[0].kind in PJ:
         return True
-    if n.kind == "delay" and (n.a[1].kind == "proj" or n.a[2].kind == "proj"):
+    if n.kind == "delay" and (n.a[1].kind in PJ or n.a[2].kind in PJ):
         return True
     if n.kind == "if":
         for arm in (n.a[1], n.a[2]):
             t = arm
-            while t.kind in ("let", "lett", "set"):
+            while t.kind in ("let", "lett", "set", "letp", "letr", "setf", "letrp"):
                 t = t.a[-1]
-            if t.kind == "proj":
+            if t.kind in ("proj", "field"):
                 return True
     return any(in_known_class(ch) for _, ch in coregen.children(n))
 
@@ -521,8 +522,8 @@ def main(ctx, args):
                 c = json.load(open(os.path.join(cdir, fn)))
                 cases.append({"id": "corpus:" + fn[:-5], "src": c["src"], "sx": c.get("sx"), "inputs": c.get("inputs", []), "times": c.get("times", 8),
                               "expect": c.get("expect"), "shapes": c.get("shapes", {})})
-        plan = ([("scalar", 30), ("core", 50), ("deep", 20)] if ctx.tier == "quick" else
-                [("scalar", 500), ("core", 900), ("deep", 300), ("closure_assign", 100), ("nolam", 100), ("notup", 100)])
+        plan = ([("scalar_nr", 30), ("core_nr", 50), ("deep_nr", 20)] if ctx.tier == "quick" else
+                [("scalar_nr", 500), ("core_nr", 900), ("deep_nr", 300), ("closure_assign_nr", 100), ("nolam", 100), ("notup", 100)])
         for prof, n in plan:
             cs, st = pc.gen_cases(ctx.seed, n, prof, times)
             cases += steer_cases(cs, stats)
